@@ -952,11 +952,35 @@ func main() {
 			nCorpus++
 		}
 	}
+	if a.Replay != "" {
+		// replay of one recorded failure: {"failure": {"input": {types, decls, late, vars, site}}}
+		var rp struct {
+			Failure struct {
+				Input struct {
+					Types, Decls, Late, Vars []string
+					Site                     Site
+				} `json:"input"`
+			} `json:"failure"`
+		}
+		b, err := os.ReadFile(a.Replay)
+		if err != nil || json.Unmarshal(b, &rp) != nil || len(rp.Failure.Input.Types) == 0 {
+			fmt.Fprintln(os.Stderr, "bad replay file", a.Replay)
+			os.Exit(2)
+		}
+		in := rp.Failure.Input
+		in.Site.ID = 0
+		in.Site.Phase = 1
+		progs = []*Prog{{Name: "r000", Types: in.Types, Decls: in.Decls, Late: in.Late, Vars: in.Vars, Sites: []Site{in.Site}}}
+		nCorpus = 1
+	}
 	nH := 40
+	if a.Replay != "" {
+		nH = 0
+	}
 	if a.Thorough() {
 		nH = 700
 	}
-	if a.N > 0 {
+	if a.N > 0 && a.Replay == "" {
 		nH = a.N
 	}
 	var checks []*checked
@@ -979,6 +1003,13 @@ func main() {
 		g.switchSites(6)
 		progs = append(progs, p)
 		checks = append(checks, nil)
+	}
+	if pf, err := os.Create(a.Path("progs.jsonl")); err == nil {
+		for _, p := range progs {
+			b, _ := json.Marshal(p)
+			pf.Write(append(b, '\n'))
+		}
+		pf.Close()
 	}
 	// go/types decision for every site
 	accepted := map[string]map[int]bool{}
